@@ -401,10 +401,12 @@ def corpus_programs(pid):
 # ------------------------------------------------------------------ main
 
 def write_evidence(pid, tier, seed, level, cov, wall, violations, assumptions):
-    os.makedirs(os.path.join(VERIF, "evidence"), exist_ok=True)
+    # runs against a tree that is not /repo as committed (seeded changes, sweeps) keep their evidence apart
+    evdir = os.environ.get("VERIF_EVIDENCE_DIR") or os.path.join(VERIF, "evidence")
+    os.makedirs(evdir, exist_ok=True)
     ev = {"property_id": pid, "tier": tier, "seed": seed, "level": level, "coverage": cov, "assumptions": assumptions,
           "wall_s": round(wall, 2), "violations": violations}
-    with open(os.path.join(VERIF, "evidence", pid + ".json"), "w") as f:
+    with open(os.path.join(evdir, pid + ".json"), "w") as f:
         json.dump(ev, f, indent=1)
 
 
